@@ -79,6 +79,20 @@ Theorem C11_src_asyncio_connection_ready_is_model : forall ident secret k body n
                            (match cnonce c with None => Some rand | n => n end)) s).
 Proof. exact connection_ready_src_eq. Qed.
 
+(* the Twisted ClientSessionService glue, translated from hpfeeds/twisted/service.py on every run (pytrans6.py; TwGenEq.v) *)
+From HP Require Import TwSession TwGenEq.
+Theorem C11_src_twisted_run_is_model : forall ident secret es, trun_src ident secret es = trun ident secret es.
+Proof. exact trun_src_eq. Qed.
+Theorem C11_src_twisted : forall ident secret, (zlen ident <= 255)%Z -> forall es, A (trun_src ident secret es).
+Proof. exact src_trun_A. Qed.
+Theorem C11_src_twisted_connection_ready_is_model : forall ident secret k body name rand a s,
+  readinfo body = Some (name, rand) -> msgauth rand ident secret = Some a ->
+  on_frame ident secret k 1 body s =
+  TwProtocol_connection_ready ident secret k
+    (modk k (fun c => mkac (cbuf c) (FAuth rand :: cout c) (cclosing c) (clost c) (caborted c)
+                           (match cnonce c with None => Some rand | n => n end)) s).
+Proof. exact tw_connection_ready_src_eq. Qed.
+
 Print Assumptions C11_asyncio.
 Print Assumptions C11_blocking_session_refuted.
 Print Assumptions C11_blocking_session_partial.
@@ -92,3 +106,6 @@ Print Assumptions C11_src_asyncio_unsubscribe_is_model.
 Print Assumptions C11_src_asyncio_run_is_model.
 Print Assumptions C11_src_asyncio.
 Print Assumptions C11_src_asyncio_connection_ready_is_model.
+Print Assumptions C11_src_twisted_run_is_model.
+Print Assumptions C11_src_twisted.
+Print Assumptions C11_src_twisted_connection_ready_is_model.
